@@ -14,6 +14,10 @@
 (* Go's select chooses at random among ready cases: both are enabled.      *)
 (* Dev "want_bare_recv": the shipped Request waits with a bare receive.    *)
 (* Dev "kill_waits_done": Kill returns when Done is closed (too early).    *)
+(* Dev "send_ignores_done": a "send" (e.g. the exit path of a peer, which  *)
+(* flushes its last events to the torrent) checks Done once before it      *)
+(* starts instead of in the select: with the queue full when the loop      *)
+(* stops, it never returns.                                                *)
 (***************************************************************************)
 EXTENDS Integers, Sequences, FiniteSets, TLC
 
@@ -43,7 +47,7 @@ Send(c) ==
         /\ IF Shape[c] = "send" THEN Return(c, "ok")
            ELSE pc' = [pc EXCEPT ![c] = "sent"] /\ UNCHANGED res
         /\ UNCHANGED <<loop, handling, listed, memory>>
-     \/ /\ DoneClosed
+     \/ /\ DoneClosed /\ ~("send_ignores_done" \in Dev /\ Shape[c] = "send" /\ Len(q) = QCap)
         /\ Return(c, "dead")
         /\ UNCHANGED <<loop, q, handling, listed, memory>>
 
